@@ -78,7 +78,8 @@ target(CL_PATH + "lock_write",
                 "token": lambda c: eq(c.result, c.self._token)},
        raises={"ReadOnlyError": lambda c: unchanged(c) & (c.old.self._lock_mode == "r"),
                "Exception": lambda c: unchanged(c)},
-       canary=lambda c: c.self._lock_count == 1)
+       canary=lambda c: c.self._lock_count == 1,
+       equivalent_mutants={r"drop:Expr.*\| self\._real_lock\.validate_token\(": "token validation is outside the counting property"})
 
 target(CL_PATH + "unlock",
        requires=lambda c: inv(c.self),
@@ -109,3 +110,253 @@ target(CL_PATH + "break_lock",
        raises={"Exception": lambda c: unchanged(c)})
 
 undecided("interleavings of several threads or processes on one lock object")
+
+# =====================================================================================
+# LockableFiles: its own counter in front of the physical lock (it does not use CountedLock)
+# =====================================================================================
+TX = Enum("tx", ["ro", "rw"])
+LF = cls("LockableFiles", fields=dict(_lock=PhysLock, _lock_mode=Opt(STR), _lock_count=INT, _transaction=Opt(TX),
+                                      _token_from_lock=ANY))
+exceptions(LockError="Exception", LockBroken="LockError", TokenMismatch="LockError", TokenLockingNotSupported="LockError")
+
+
+def lf_inv(s):
+    p = s._lock
+    return And(s._lock_count >= 0,
+               (s._lock_count == 0) == s._lock_mode.is_none,
+               s._lock_mode.is_none | (s._lock_mode == "r") | (s._lock_mode == "w"),
+               (p.state == "free") == (s._lock_count == 0),
+               Implies(s._lock_count > 0, If(s._lock_mode == "r", p.state == "r", p.state == "w")),
+               p.acquired - p.released == If(s._lock_count > 0, 1, 0),
+               # a transaction exists exactly while locked, writeable exactly in write mode
+               s._transaction.is_none == (s._lock_count == 0),
+               Implies(s._lock_mode == "w", s._transaction == Opt(TX).some(TX.lit("rw"))),
+               Implies(s._lock_mode == "r", s._transaction == Opt(TX).some(TX.lit("ro"))))
+
+
+def lf_same_phys(c):
+    p, q = c.self._lock, c.old.self._lock
+    return And(p.state == q.state, p.acquired == q.acquired, p.released == q.released)
+
+
+def lf_unchanged(c):
+    return And(c.self._lock_count == c.old.self._lock_count, c.self._lock_mode == c.old.self._lock_mode,
+               c.self._transaction == c.old.self._transaction, lf_same_phys(c))
+
+
+# transaction helpers of LockableFiles: verified below, used modularly by the lock methods
+SET_TX = verified(("LockableFiles", "_set_transaction"), params=["new_transaction"], result=NONE,
+                  modifies=["self._transaction"],
+                  requires=None,
+                  ensures=lambda c: And(c.old.self._transaction.is_none,
+                                        c.self._transaction == Opt(TX).some(c.new_transaction)),
+                  raises={"LockError": lambda c: And(Not(c.old.self._transaction.is_none), c.self._transaction == c.old.self._transaction)})
+FIN_TX = verified(("LockableFiles", "_finish_transaction"), result=NONE, modifies=["self._transaction"],
+                  ensures=lambda c: And(Not(c.old.self._transaction.is_none), c.self._transaction.is_none),
+                  raises={"LockError": lambda c: And(c.old.self._transaction.is_none, c.self._transaction.is_none)})
+SET_W = verified(("LockableFiles", "_set_write_transaction"), result=NONE, modifies=["self._transaction"],
+                 ensures=lambda c: And(c.old.self._transaction.is_none, c.self._transaction == Opt(TX).some(TX.lit("rw"))),
+                 raises={"LockError": lambda c: And(Not(c.old.self._transaction.is_none), c.self._transaction == c.old.self._transaction)})
+SET_R = verified(("LockableFiles", "_set_read_transaction"), result=NONE, modifies=["self._transaction"],
+                 ensures=lambda c: And(c.old.self._transaction.is_none, c.self._transaction == Opt(TX).some(TX.lit("ro"))),
+                 raises={"LockError": lambda c: And(Not(c.old.self._transaction.is_none), c.self._transaction == c.old.self._transaction)})
+assumed("transactions.WriteTransaction", pure=True, returns=lambda c: TX.lit("rw"))
+assumed("transactions.ReadOnlyTransaction", pure=True, returns=lambda c: TX.lit("ro"))
+assumed("transaction.finish", result=NONE, no_raise=True,
+        note="Transaction.finish() only drops caches: it does not touch lock state and does not raise (transactions.py)")
+assumed("self.get_transaction().writeable", pure=True,
+        returns=lambda c: Or(c.self._transaction.is_none, c.self._transaction == Opt(TX).some(TX.lit("rw"))),
+        note="WriteTransaction and PassThroughTransaction are writeable, ReadOnlyTransaction is not (transactions.py)")
+assumed("self.get_transaction().set_cache_size", pure=True, result=NONE)
+assumed("lock.cant_unlock_not_held", result=NONE, raises={"LockNotHeld": "unchanged"},
+        note="raises LockNotHeld, or only warns under the 'unlock' debug flag; changes nothing")
+
+LFP = "breezy/bzr/lockable_files.py::LockableFiles."
+target(LFP + "_set_transaction", contract=SET_TX, params=dict(new_transaction=TX))
+target(LFP + "_finish_transaction", contract=FIN_TX,
+       equivalent_mutants={r"drop:Expr.*\| transaction\.finish\(\)": "finishing the transaction object is outside the lock-counting property"})
+target(LFP + "_set_write_transaction", contract=SET_W)
+target(LFP + "_set_read_transaction", contract=SET_R,
+       equivalent_mutants={r"drop:Expr.*set_cache_size": "cache size is outside the property"})
+
+LF_LOCK_READ = verified(("LockableFiles", "lock_read"), result=NONE,
+                        requires=lambda c: lf_inv(c.self),
+                        modifies=["self._lock_count", "self._lock_mode", "self._transaction", "self._lock.state", "self._lock.acquired"],
+                        ensures=lambda c: And(lf_inv(c.self),
+                                              If(c.old.self._lock_count == 0,
+                                                 And(c.self._lock.acquired == c.old.self._lock.acquired + 1,
+                                                     c.self._lock.released == c.old.self._lock.released,
+                                                     c.self._lock_count == 1, c.self._lock_mode == "r"),
+                                                 And(lf_same_phys(c), c.self._lock_count == c.old.self._lock_count + 1,
+                                                     c.self._lock_mode == c.old.self._lock_mode,
+                                                     c.self._transaction == c.old.self._transaction))),
+                        raises={"Exception": lambda c: lf_unchanged(c) & (c.old.self._lock_count == 0)})
+target(LFP + "lock_read", contract=LF_LOCK_READ, canary=lambda c: c.self._lock_count == 1,
+       equivalent_mutants={r"drop:Raise.*\| raise ValueError\(": "dead code under the object invariant (mode is always None, 'r' or 'w')"})
+
+LF_LOCK_WRITE = verified(("LockableFiles", "lock_write"), params=["token"],
+                         requires=lambda c: lf_inv(c.self),
+                         modifies=["self._lock_count", "self._lock_mode", "self._transaction", "self._token_from_lock",
+                                   "self._lock.state", "self._lock.acquired"],
+                         ensures=lambda c: And(lf_inv(c.self),
+                                               If(c.old.self._lock_count == 0,
+                                                  And(c.self._lock.acquired == c.old.self._lock.acquired + 1,
+                                                      c.self._lock.released == c.old.self._lock.released,
+                                                      c.self._lock_count == 1, c.self._lock_mode == "w"),
+                                                  And(lf_same_phys(c), c.self._lock_count == c.old.self._lock_count + 1,
+                                                      c.self._lock_mode == "w", c.old.self._lock_mode == "w",
+                                                      c.self._transaction == c.old.self._transaction)),
+                                               eq(c.result, c.self._token_from_lock)),
+                         raises={"ReadOnlyError": lambda c: lf_unchanged(c) & (c.old.self._lock_mode == "r"),
+                                 "Exception": lambda c: lf_unchanged(c)})
+target(LFP + "lock_write", contract=LF_LOCK_WRITE, canary=lambda c: c.self._lock_count == 1,
+       equivalent_mutants={r"boolop.*\| if self\._lock_mode != .w. or not": "under the object invariant the mode is 'w' exactly when the transaction is writeable, so `or` and `and` agree",
+                           r"drop:Expr.*\| self\._lock\.validate_token\(": "token validation is outside the counting property"})
+
+LF_UNLOCK = verified(("LockableFiles", "unlock"), result=NONE,
+                     requires=lambda c: lf_inv(c.self),
+                     modifies=["self._lock_count", "self._lock_mode", "self._transaction", "self._lock.state", "self._lock.released"],
+                     ensures=lambda c: If(c.old.self._lock_count == 0,
+                                          # only reachable under the 'unlock' debug flag: warn, change nothing
+                                          lf_unchanged(c),
+                                          If(c.old.self._lock_count == 1,
+                                             And(c.self._lock_count == 0, c.self._lock_mode.is_none, c.self._transaction.is_none,
+                                                 c.self._lock.acquired == c.old.self._lock.acquired,
+                                                 # released exactly once; a failing release is swallowed by only_raises
+                                                 Or(And(c.self._lock.released == c.old.self._lock.released + 1, lf_inv(c.self)),
+                                                    c.self._lock.released == c.old.self._lock.released)),
+                                             And(lf_inv(c.self), lf_same_phys(c), c.self._lock_count == c.old.self._lock_count - 1,
+                                                 c.self._lock_mode == c.old.self._lock_mode,
+                                                 c.self._transaction == c.old.self._transaction))),
+                     raises={"LockNotHeld": lambda c: lf_unchanged(c) & (c.old.self._lock_count == 0),
+                             "LockBroken": lambda c: And(c.old.self._lock_count == 1, c.self._lock_count == 0,
+                                                         c.self._lock_mode.is_none, c.self._transaction.is_none,
+                                                         c.self._lock.released == c.old.self._lock.released)})
+target(LFP + "unlock", contract=LF_UNLOCK,
+       ensures={"contract": LF_UNLOCK.ensures,
+                "physical_release_attempted_exactly_on_last_unlock": lambda c: If(
+                    c.old.self._lock_count == 1, c.calls("PhysLock.unlock") == 1, c.calls("PhysLock.unlock") == 0),
+                # unlocking an unlocked object goes through the refusal policy point (LockNotHeld unless the debug flag is set)
+                "unlock_when_not_held_is_refused": lambda c: Implies(c.old.self._lock_count == 0,
+                                                                     c.calls("lock.cant_unlock_not_held") == 1)},
+       canary=lambda c: c.self._lock_count == 0)
+
+LF_IS_LOCKED = verified(("LockableFiles", "is_locked"), result=BOOL, modifies=[],
+                        no_raise=True, pure=True, ensures=lambda c: c.result == (c.self._lock_count >= 1))
+target(LFP + "is_locked", contract=LF_IS_LOCKED, raises={}, canary=lambda c: c.result == True)
+
+# =====================================================================================
+# PackRepository: logical write-lock counter in front of control_files (modular on LockableFiles)
+# =====================================================================================
+PR = cls("PackRepository", fields=dict(control_files=LF, _write_lock_count=INT, _write_group=Opt(ANY), _transaction=Opt(TX),
+                                       _prev_lock=ANY, _fallback_repositories=ANY, _unstacked_provider=ANY))
+exceptions(BzrError="Exception")
+pure("debug.debug_flag_enabled", "RepositoryWriteLockResult", "LogicalLockResult")
+assumed("self._refresh_data", result=NONE, note="reloads pack names; does not touch lock counters")
+assumed("self.abort_write_group", result=NONE, modifies=["self._write_group"],
+        ensures=lambda c: c.self._write_group.is_none, raises={"Exception": lambda c: TRUE})
+assumed("self._unstacked_provider.enable_cache", result=NONE)
+assumed("self._unstacked_provider.disable_cache", result=NONE, no_raise=True,
+        note="CachingParentsProvider.disable_cache only resets fields: it does not raise")
+
+
+def pr_inv(s):
+    return And(s._write_lock_count >= 0, lf_inv(s.control_files),
+               Implies(s._write_lock_count > 0, s.control_files._lock_count == 0),
+               # a write transaction exists exactly while write-locked
+               s._transaction.is_none == (s._write_lock_count == 0))
+
+
+def cf_unchanged(c):
+    a, b = c.self.control_files, c.old.self.control_files
+    return And(a._lock_count == b._lock_count, a._lock_mode == b._lock_mode, a._transaction == b._transaction,
+               a._lock.state == b._lock.state, a._lock.acquired == b._lock.acquired, a._lock.released == b._lock.released)
+
+
+PRP = "breezy/bzr/pack_repo.py::PackRepository."
+PR_EQUIV = {r"relock|was (write|read) locked again": "debug note under the 'relock' flag only: no effect on lock state",
+            r"drop:Assign.*\| self\._prev_lock = ": "_prev_lock is read only by the 'relock' debug note",
+            r"drop:Expr.*\| transaction\.finish\(\)": "finishing the transaction object is outside the lock-counting property"}
+
+
+def first_lock_side_effects(c):
+    """Caches, fallback repositories and pack names are set up exactly when the repository goes from unlocked to locked."""
+    was_locked = Or(c.old.self._write_lock_count > 0, c.old.self.control_files._lock_count >= 1)
+    n = (c.calls("self._unstacked_provider.enable_cache"), c.calls("self._refresh_data"), 1 if c.in_loop() else 0)
+    return If(was_locked, lift(n == (0, 0, 0)), lift(n == (1, 1, 1)))
+
+FALLBACK_LOOP = loop(r"for repo in self\._fallback_repositories", lambda c: TRUE,
+                     body_post=lambda c: c.calls_in_iteration("?repo.lock_read") == 1)   # every fallback is read-locked once
+
+PR_IS_LOCKED = verified(("PackRepository", "is_locked"), result=BOOL, modifies=[], no_raise=True, pure=True,
+                        requires=lambda c: c.self._write_lock_count >= 0,
+                        ensures=lambda c: c.result == Or(c.self._write_lock_count > 0, c.self.control_files._lock_count >= 1))
+target(PRP + "is_locked", contract=PR_IS_LOCKED, raises={}, canary=lambda c: c.result == True)
+
+target(PRP + "is_write_locked", requires=lambda c: pr_inv(c.self), modifies=[], raises={}, result=INT,
+       ensures=lambda c: c.result == c.self._write_lock_count, canary=lambda c: c.result == 0)
+
+target(PRP + "lock_write",
+       requires=lambda c: pr_inv(c.self), loops={1: FALLBACK_LOOP},
+       modifies=["self._write_lock_count", "self._transaction", "self._prev_lock"],
+       ensures={"inv": lambda c: pr_inv(c.self),
+                "counted": lambda c: And(c.self._write_lock_count == c.old.self._write_lock_count + 1, cf_unchanged(c)),
+                "no_physical_lock_traffic": lambda c: And(c.calls("LockableFiles.lock_write") == 0, c.calls("LockableFiles.lock_read") == 0,
+                                                          c.calls("LockableFiles.unlock") == 0),
+                "first_lock_side_effects": first_lock_side_effects,
+                "returns_a_lock_result": lambda c: Not(c.result.is_none)},
+       raises={"ReadOnlyError": lambda c: And(c.self._write_lock_count == 0, c.old.self._write_lock_count == 0, cf_unchanged(c),
+                                              c.old.self.control_files._lock_count >= 1),
+               # a failure while enabling caches / locking fallbacks / refreshing leaves the counter incremented
+               "Exception": lambda c: And(cf_unchanged(c), c.self._write_lock_count == c.old.self._write_lock_count + 1,
+                                          c.old.self._write_lock_count == 0)},
+       canary=lambda c: c.self._write_lock_count == 1, equivalent_mutants=PR_EQUIV)
+
+target(PRP + "lock_read",
+       requires=lambda c: pr_inv(c.self), loops={1: FALLBACK_LOOP},
+       modifies=["self._write_lock_count", "self._prev_lock", "self.control_files._lock_count", "self.control_files._lock_mode",
+                 "self.control_files._transaction", "self.control_files._lock.state", "self.control_files._lock.acquired"],
+       ensures={"inv": lambda c: pr_inv(c.self),
+                "counted": lambda c: If(c.old.self._write_lock_count > 0,
+                                        And(c.self._write_lock_count == c.old.self._write_lock_count + 1, cf_unchanged(c),
+                                            c.calls("LockableFiles.lock_read") == 0),
+                                        And(c.self._write_lock_count == 0, c.calls("LockableFiles.lock_read") == 1,
+                                            c.self.control_files._lock_count == c.old.self.control_files._lock_count + 1)),
+                "first_lock_side_effects": first_lock_side_effects,
+                "returns_a_lock_result": lambda c: Not(c.result.is_none)},
+       raises={"Exception": lambda c: And(pr_inv(c.self), c.old.self._write_lock_count == 0, c.self._write_lock_count == 0)},
+       canary=lambda c: c.self._write_lock_count == 0, equivalent_mutants=PR_EQUIV)
+
+target(PRP + "unlock",
+       requires=lambda c: pr_inv(c.self),
+       loops={1: loop(r"for repo in self\._fallback_repositories", lambda c: TRUE,
+                      body_post=lambda c: c.calls_in_iteration("?repo.unlock") == 1)},
+       modifies=["self._write_lock_count", "self._write_group", "self._transaction", "self.control_files._lock_count",
+                 "self.control_files._lock_mode", "self.control_files._transaction", "self.control_files._lock.state",
+                 "self.control_files._lock.released"],
+       ensures={"counted": lambda c: If(c.old.self._write_lock_count > 0,
+                                        And(cf_unchanged(c), c.calls("LockableFiles.unlock") == 0,
+                                            # a failing abort_write_group is swallowed by only_raises: still write-locked
+                                            If(c.calls("self.abort_write_group", failed=True) == 1,
+                                               c.self._write_lock_count == c.old.self._write_lock_count,
+                                               c.self._write_lock_count == c.old.self._write_lock_count - 1)),
+                                        And(c.self._write_lock_count == 0, c.calls("LockableFiles.unlock") == 1)),
+                "inv": lambda c: Implies(And(Or(c.old.self._write_lock_count > 0, c.old.self.control_files._lock_count != 1),
+                                             c.calls("self.abort_write_group", failed=True) == 0), pr_inv(c.self)),
+                # an open write group is aborted exactly when the last write lock is released with a group still open
+                "write_group_abort": lambda c: If(And(c.old.self._write_lock_count == 1, Not(c.old.self._write_group.is_none)),
+                                                  lift(c.calls("self.abort_write_group") == 1
+                                                       and (c.calls("self.abort_write_group", failed=True) == 1
+                                                            or c.calls("self._unstacked_provider.disable_cache") == 1)),
+                                                  lift(c.calls("self.abort_write_group") == 0)),
+                # caches are dropped and fallback repositories unlocked exactly when the last lock goes away
+                "last_unlock_side_effects": lambda c: Implies(
+                    c.calls("self.abort_write_group") == 0,     # (the forced write-group abort path returns early)
+                    If(Or(c.self._write_lock_count > 0, c.self.control_files._lock_count >= 1),
+                       lift(not c.in_loop()), lift(c.in_loop() and c.calls("self._unstacked_provider.disable_cache") >= 1)))},
+       raises={"LockNotHeld": lambda c: And(c.old.self._write_lock_count == 0, c.self._write_lock_count == 0,
+                                            c.old.self.control_files._lock_count == 0, cf_unchanged(c)),
+               "LockBroken": lambda c: And(c.old.self._write_lock_count == 0, c.self._write_lock_count == 0)},
+       canary=lambda c: c.self._write_lock_count == 0, equivalent_mutants=PR_EQUIV)
+undecided("PackRepository write locks are purely logical: no physical lock is taken by lock_write (by design); "
+          "branches, working trees and RemoteRepository lock wrappers are not under contract")
